@@ -65,6 +65,11 @@ pub fn run(env: &Env, run: &Run) -> (Stats, Coverage) {
         check_op(env, p, Op::Prepare, s, st);
         check_op(env, p, Op::Enforce, s, st);
     }));
+    let stairs = crate::props::rules::block_staircases(env, crate::subject::Class::Freeform);
+    st.merge(run_family(&stairs, |s, st| {
+        check_op(env, p, Op::Prepare, s, st);
+        check_op(env, p, Op::Enforce, s, st);
+    }));
     st.sample(json!({"input": ["a", "U+3000", "U+FB01", "A"], "expected": "Ok(\"a U+FB01 A\"): ideographic space -> U+0020, ligature and case untouched"}));
     st.sample(json!({"input": ["e", "U+0301", "U+00A0"], "expected": "Ok(U+00E9 U+0020)"}));
     let cov = Coverage {
